@@ -350,6 +350,62 @@ def oracle(ctx, U, LA, D, rng, base):
             elif ok2 and np.abs(outs['F'] @ B2 - Bf2)[ok2].max() > 1e-8 * (1 + np.abs(Bf2).max()):
                 ctx.fail('filter_operator/constraint/two-candidates', '|F B - Bf| = %.3g on rows whose pattern supports both constraints'
                          % np.abs(outs['F'] @ B2 - Bf2)[ok2].max(), dict(base, candidates=2))
+    # the prescribed pattern stores some explicit zeros (a thresholded pattern): the projection still maps B to Bf on every row
+    # whose stored pattern supports it; and four / five candidates (the local Gram matrices have more than 3 x 3 entries)
+    Cz = C.copy().astype(float)
+    if Cz.nnz > 2:
+        Cz.data[::3] = 0.0                   # stored zeros: still part of the pattern
+        try:
+            with warnings.catch_warnings():
+                warnings.simplefilter('ignore')
+                Fz = U.filter_operator(sp.csr_array(D), Cz, Bm, Bf).toarray()
+            patz = np.zeros((n, n), dtype=bool)
+            for i_ in range(n):
+                patz[i_, Cz.indices[Cz.indptr[i_]:Cz.indptr[i_ + 1]]] = True
+            okz = [i_ for i_ in range(n) if np.abs(patz[i_] * Bm.ravel()).sum() > 0]
+            ctx.count('oracle:filter_operator/stored-zeros-in-pattern')
+            if np.any((Fz != 0) & ~patz):
+                ctx.fail('filter_operator/pattern/stored-zeros', 'entries outside the stored pattern', base)
+            elif okz and np.abs(Fz @ Bm - Bf).ravel()[okz].max() > 1e-10 * (1 + np.abs(Bf).max()):
+                ctx.fail('filter_operator/constraint/stored-zeros-in-pattern', '|F B - Bf| = %.3g on rows whose stored pattern allows the constraint'
+                         % np.abs(Fz @ Bm - Bf).ravel()[okz].max(), base)
+        except Exception as e:   # noqa
+            ctx.fail('filter_operator/raises', repr(e), dict(base, pattern='stored zeros'))
+    if n >= 6:
+        for K_ in (4, 5):
+            BK = np.array([[rng.choice([1.0, -1.0, 2.0, 0.5, 3.0, -2.0]) for _ in range(K_)] for _ in range(n)]) + np.vander(np.arange(n) % 4 + 1.0, K_) * 0.1
+            BfK = np.array([[rng.choice([1.0, -2.0, 0.5, 3.0]) for _ in range(K_)] for _ in range(n)])
+            Cfull = sp.csr_array(np.ones((n, n)))
+            try:
+                with warnings.catch_warnings():
+                    warnings.simplefilter('ignore')
+                    FK = U.filter_operator(sp.csr_array(D + np.eye(n)), Cfull, BK, BfK).toarray()
+                ctx.count('oracle:filter_operator/%d-candidates' % K_)
+                if np.linalg.matrix_rank(BK) == K_ and np.abs(FK @ BK - BfK).max() > 1e-8 * (1 + np.abs(BfK).max()) * np.linalg.cond(BK.T @ BK):
+                    ctx.fail('filter_operator/constraint/%d-candidates' % K_, '|F B - Bf| = %.3g with a full pattern and %d candidates' % (np.abs(FK @ BK - BfK).max(), K_), dict(base, candidates=K_))
+            except Exception as e:   # noqa
+                ctx.fail('filter_operator/raises', repr(e), dict(base, candidates=K_))
+    # BSR matrices whose block array is NOT C-contiguous (e.g. a transposed view), scaled by a vector of a wider type
+    for bsz_ in (b_ for b_ in (2, 3) if n % b_ == 0):
+        Ab_ = sp.bsr_array(np.round(2 * D), blocksize=(bsz_, bsz_))
+        if Ab_.nnz == 0:
+            continue
+        nonc = np.asfortranarray(Ab_.data)                       # same numbers, Fortran memory order
+        for tag_, data_, vv_ in (('fortran-order/float32->float64', nonc.astype(np.float32, order='F'), np.array([rng.choice([0.5, 1.5, -0.25, 2.0]) for _ in range(n)]) / 3.0),
+                                 ('fortran-order/int->float', np.asfortranarray(np.round(nonc).astype(np.int64)), np.array([rng.choice([0.5, 1.5, -0.25]) for _ in range(n)])),
+                                 ('fortran-order/real->complex', nonc.copy(order='F'), np.array([rng.choice([0.5, 1.5]) for _ in range(n)]) * (1 + 0.5j))):
+            Anc = sp.bsr_array((data_, Ab_.indices.copy(), Ab_.indptr.copy()), shape=Ab_.shape)
+            Dn = Anc.toarray()
+            for nm_, f_, want_ in (('scale_rows', U.scale_rows, np.diag(vv_) @ Dn), ('scale_columns', U.scale_columns, Dn @ np.diag(vv_))):
+                try:
+                    got_ = f_(Anc, vv_, copy=True).toarray()
+                except Exception as e:   # noqa
+                    ctx.fail('%s/bsr/%s/raises' % (nm_, tag_), repr(e), dict(base, blocksize=bsz_, layout=tag_))
+                    continue
+                ctx.count('oracle:bsr-noncontiguous')
+                if _nn(np.abs(got_ - want_).max()) > 1e-6 * (1 + np.abs(want_).max()):
+                    ctx.fail('%s/bsr/non-contiguous-blocks' % nm_, '%s: result differs from the diagonal product by %.3g' % (tag_, np.abs(got_ - want_).max()),
+                             dict(base, blocksize=bsz_, layout=tag_))
     # pseudo-inverses of stacked small blocks (1x1 .. 3x3) in other units: pinv(s B) = pinv(B) / s
     for bsz in (1, 2, 3):
         blk = np.array([[[rng.choice([-2.0, -1.0, 0.5, 1.0, 3.0, 0.0]) for _ in range(bsz)] for _ in range(bsz)] for _ in range(4)])
